@@ -152,13 +152,25 @@ func c12Check(s *stack.Snapshot, level stack.Similarity) (late bool, err error) 
 
 type c12Case struct {
 	D      DumpM
+	Race   *RaceM `json:",omitempty"`
 	Naming bool
 }
 
 func (c *c12Case) opts() *stack.Opts { return &stack.Opts{NameArguments: c.Naming} }
 
+func (c *c12Case) snapshot() (*stack.Snapshot, error) {
+	if c.Race != nil {
+		s, err := scanAloneOpts(c.Race.Print(), c.opts())
+		if s == nil {
+			return nil, fmt.Errorf("generated race report does not parse: %v", err)
+		}
+		return s, nil
+	}
+	return parseDump(&c.D, c.opts())
+}
+
 func c12Oracle(c c12Case) error {
-	s, err := parseDump(&c.D, c.opts())
+	s, err := c.snapshot()
 	if err != nil {
 		return err
 	}
@@ -173,11 +185,15 @@ func c12Oracle(c c12Case) error {
 var c12Rand = Check[c12Case]{
 	Prop: "C12", Name: "random",
 	Gen: func(t *rapid.T) c12Case {
+		if oneIn(t, 8, "raceSnapshot") {
+			r := genAggRace(t)
+			return c12Case{Race: &r, Naming: rapid.Bool().Draw(t, "naming")}
+		}
 		return c12Case{D: genAggDump(t, 40), Naming: rapid.Bool().Draw(t, "naming")}
 	},
 	Oracle: c12Oracle,
 	Obs: func(c c12Case) Obs {
-		s, err := parseDump(&c.D, c.opts())
+		s, err := c.snapshot()
 		late := false
 		if err == nil {
 			for _, l := range allLevels {
@@ -193,7 +209,12 @@ var c12Rand = Check[c12Case]{
 		if c.Naming {
 			cl = append(cl, "naming_on")
 		}
-		return Obs{Nontrivial: late, Digest: digestBytes(c.D.Print(), []byte{b2b(c.Naming)}), Classes: cl, Sample: quoteShort(truncBytes(c.D.Print(), 900))}
+		in := c.D.Print()
+		if c.Race != nil {
+			cl = append(cl, "race_snapshot")
+			in = c.Race.Print()
+		}
+		return Obs{Nontrivial: late, Digest: digestBytes(in, []byte{b2b(c.Naming)}), Classes: cl, Sample: quoteShort(truncBytes(in, 900))}
 	},
 }
 
